@@ -20,7 +20,7 @@ PROPS = {
             "note": "proof, partial: kernel readiness semantics of LT/ET/ONESHOT (incl. 'a short read on a stream means the queue was "
                     "empty') and goroutine-level atomicity of the model's steps are assumptions; model fidelity is sampled on every run; "
                     "the 2^31-1 iteration limit of ET mode is modelled as unbounded; NPoller only selects the poller, CPU idleness on a "
-                    "real kernel is not measured here (read-call counters on the simulated kernel instead)",
+                    "real kernel is measured only in the supporting real-socket cases (60 ms window); read-call counters on the simulated kernel",
             "technique": "Lean 4 proof (inductive invariant over a small-step transition system, decreasing measure) + differential correspondence"},
         "lean": ["NbioVerif.Properties.C02"], "drivers": ["gatedrv"], "harness": ["hread"],
         "runs": [READ_RUN],
